@@ -30,6 +30,10 @@ def epochCalQ : Handler := fun fn a =>
         (optBool a[6]!) (optQ a[7]! a[8]!))
   | "get_date_kw" => some <| out (GenQ.get_date_kw a[0]!.q (optBool a[1]!) (optQ a[2]! a[3]!))
   | "tt2ut" => some <| out (GenQ.tt2ut a[0]!.i a[1]!.i)
+  | "leap_seconds_num" => some <| out (GenQ.leap_seconds_num a[0]!.q a[1]!.q)
+  | "epoch_set_local" => some <| out (GenQ.epoch_set_local a[0]!.i a[1]!.i a[2]!.q a[3]!.q a[4]!.q a[5]!.q
+        (optBool a[6]!) (optQ a[7]! a[8]!) (optBool a[9]!) a[10]!.q)
+  | "get_date_local" => some <| out (GenQ.get_date_local a[0]!.q (optBool a[1]!) (optQ a[2]! a[3]!) (optBool a[4]!) a[5]!.q)
   | _ => none
 
 def epochCalF : Handler := fun fn a =>
@@ -53,6 +57,10 @@ def epochCalF : Handler := fun fn a =>
         (optBool a[6]!) (optF a[7]! a[8]!))
   | "get_date_kw" => some <| out (GenF.get_date_kw a[0]!.f (optBool a[1]!) (optF a[2]! a[3]!))
   | "tt2ut" => some <| out (GenF.tt2ut a[0]!.i a[1]!.i)
+  | "leap_seconds_num" => some <| out (GenF.leap_seconds_num a[0]!.f a[1]!.f)
+  | "epoch_set_local" => some <| out (GenF.epoch_set_local a[0]!.i a[1]!.i a[2]!.f a[3]!.f a[4]!.f a[5]!.f
+        (optBool a[6]!) (optF a[7]! a[8]!) (optBool a[9]!) a[10]!.f)
+  | "get_date_local" => some <| out (GenF.get_date_local a[0]!.f (optBool a[1]!) (optF a[2]! a[3]!) (optBool a[4]!) a[5]!.f)
   | _ => none
 
 end Driver
